@@ -75,6 +75,16 @@ struct VmSharedReadonly {
     foreign_function_policies: Vec<ForeignCallPolicy>,
 }
 
+impl Drop for VmSharedReadonly {
+    fn drop(&mut self) {
+        // static strings are leaked boxes owned by this struct; no thread (and therefore no
+        // Value pointing at them) outlives the last Arc<VmSharedReadonly>
+        for s in self.static_strings.drain(..) {
+            let _ = unsafe { Box::from_raw(s) };
+        }
+    }
+}
+
 /*
 The CLI or some other program will
    2. initialize the worker pool (pool of real OS threads which will run the green threads) (OR JUST USE RAYON)
